@@ -60,8 +60,9 @@ def check(pid, tier, seed):
     mcs, dumps, samples = [], [], []
     tot_states = tot_edges = tot_cov = nexec = 0
     seen = set()
-    for cfg, types in PLAN:
-        kind = "str" if cfg == "str" else cfg
+    for cfg0, types in PLAN:
+        kind = "str" if cfg0 == "str" else cfg0
+        cfg = cfg0 + ("_th" if tier == "thorough" else "")   # thorough: wider value domains (int -4..10, unsigned 0..10, float k/4 in [-3,3], strings up to 4)
         mcs.append(common.model_check(SPEC, "MC_Obs.tla", "MC_Obs_%s.cfg" % cfg, "ObservableP " + cfg))
         dot, dst = common.dump_graph(SPEC, "MC_Obs.tla", "MC_Obs_%s.cfg" % cfg, "ObservableP-" + cfg)
         dumps.append(dst)
